@@ -298,7 +298,9 @@ class C30(HistCheck):
             if hang_at < len(cmds):
                 # (an assertion level that was pushed and popped again still leaves its activation variable behind)
                 pushed = any(c['k'] == 'push' for c in cmds[:hang_at])
-            res['violations'].append({'cls': 'liveness', 'sig': {'engine': engine_of(case['options']), 'kind': d[0], 'pushed': pushed},
+            # loop site: the function whose loop kept calling while the run went on past its tick budget (rt_core.cc, sampleStack)
+            loop = d[1].get('loop') if isinstance(d[1], dict) else None
+            res['violations'].append({'cls': 'liveness', 'sig': {'engine': engine_of(case['options']), 'kind': d[0], 'pushed': pushed, 'loop': loop},
                                       'detail': {'death': d[0], 'last_command_index': hang_at}})
 
     def oracle(self, ctx, case, info, res):
